@@ -49,7 +49,7 @@ Definition osval_eqb (a b : option sval) : bool :=
   match a, b with None, None => true | Some x, Some y => sval_eqb x y | _, _ => false end.
 
 Definition case_print (p : Z) (v : sval) (expected : wres) : bool := wres_eqb (print_style p v) expected.
-Definition case_extract (p : Z) (s : text) (expected : option sval) : bool := osval_eqb (extract_style p s) expected.
+Definition case_extract (p : Z) (s : text) (expected : option sval) : bool := osval_eqb (read_style p s) expected.
 Definition otext_eqb' (a b : option text) : bool := match a, b with None, None => true | Some x, Some y => text_eqb x y | _, _ => false end.
 Definition case_time_print (syn : tsyntax) (fps : option Q) (t : Q) (expected : option text) : bool :=
   otext_eqb' (to_time_format syn fps t) expected.
